@@ -32,3 +32,5 @@ func verifConfig(key string, val int)              { panic("verif intrinsic") }
 func verifIdealHash()                              { panic("verif intrinsic") }
 func verifNote(label string, v any)                { panic("verif intrinsic") }
 func verifSymQty64(name string) int64               { panic("verif intrinsic") }
+
+func verifSymQtyU64(name string) uint64 { panic("verif intrinsic") }
